@@ -5,7 +5,7 @@
    [parse_flv], [parse_video], [parse_audio], [parse_script], [parse_avcc], [parse_hvcc] are the
    independent readers; [flv_ok] is the oracle bin/check applies to the implementation's bytes. *)
 From Coq Require Import ZArith List Bool.
-From V Require Import Bytes C08Amf0 C08Flv C08Amf0Proofs C08FlvProofs.
+From V Require Import Bytes C08Amf0 C08Flv C08Fanout C08Amf0Proofs C08FlvProofs C08FanoutProofs.
 Import ListNotations.
 Open Scope Z_scope.
 
@@ -121,6 +121,46 @@ Theorem C08_model_passes : forall c fs k t0,
   case_wf c fs k = true -> flv_ok c fs k (flv_bytes c fs k t0) = true.
 Proof. exact model_passes_lemma. Qed.
 Print Assumptions C08_model_passes.
+
+(* several clients of one stream share the tag objects (GOP cache + every client's queue hold the
+   same reference).  For every tag store and every schedule of deliveries, attachments (served from
+   the cache) and runs of the clients' routines: the tags are unchanged afterwards, and every client
+   receives exactly what ONE writer produces from the tags that client was handed — its own time
+   line, independent of the other clients and of the order in which the routines get to a shared tag *)
+Theorem flv_clients_independent : forall store sched,
+  fan_run store sched =
+  (store, map (fun h => write_tags w_init (map (resolve store) h)) (fan_hist store sched)).
+Proof. exact fan_run_independent_lemma. Qed.
+Print Assumptions flv_clients_independent.
+
+(* what a client is handed depends on deliveries and attachments only, not on when routines run *)
+Theorem flv_clients_history_ignores_scheduling : forall store sched,
+  fan_hist store sched =
+  fan_hist store (filter (fun e => match e with EConsume _ _ => false | _ => true end) sched).
+Proof. exact fan_hist_ignores_consume_lemma. Qed.
+Print Assumptions flv_clients_history_ignores_scheduling.
+
+(* the multi-client oracle applied to the implementation accepts the model, for every store and schedule *)
+Theorem C08_fanout_model_passes : forall flags store sched,
+  let '(after, outs) := fan_streams flags store sched in
+  fan_ok_bytes flags store sched after outs = true.
+Proof. exact fan_model_passes_lemma. Qed.
+Print Assumptions C08_fanout_model_passes.
+
+(* non-vacuity: two clients, the second joining from the cache at the second key frame; two schedules
+   that differ only in when the routines run give the same streams: client 1 sees 0,40,80,120 and
+   client 2 (joined at 5080) sees 0,40 *)
+Example C08_fanout_nonvacuous :
+  let k t := mkTag 9 t [23; 1; 0; 0; 0; 0; 0; 0; 1; 101] in
+  let p t := mkTag 9 t [39; 1; 0; 0; 0; 0; 0; 0; 1; 65] in
+  let store := [k 5000; p 5040; k 5080; p 5120] in
+  let s1 := [EAttach; EDeliver 0; EDeliver 1; EDeliver 2; EAttach; EDeliver 3] in
+  let s2 := [EAttach; EDeliver 0; EConsume 0 1; EDeliver 1; EDeliver 2; EAttach; EDeliver 3; EConsume 1 2; EConsume 0 9] in
+  fan_run store s1 = fan_run store s2 /\
+  map (fun o => option_map (fun r => map p_ts (snd r)) (parse_flv (file_header 4 ++ o))) (snd (fan_run store s2)) =
+    [Some [0; 40; 80; 120]; Some [0; 40]] /\
+  fst (fan_run store s2) = store.
+Proof. vm_compute. auto. Qed.
 
 (* non-vacuity: an H.264 + AAC stream whose second tag is 10 ms older than the key frame the
    client joins at; the hypotheses hold and the client sees 0, 0, 0 | 0, 0, 40, 13 *)
